@@ -23,6 +23,7 @@ def parse_arr(s):
 ENTRIES = False          # every op also through its other public entry points: Tensor method, operator, nn layer class
 SPELLINGS = False        # set together with LAYOUTS: integer arguments also arrive as NumPy integers, tuples also as lists
 SPELL_OPS = ('concat', 'stack', 'unbind', 'sum', 'mean', 'squeeze', 'unsqueeze', 'reshape', 'movedim', 'transpose', 'flatten')
+RESET_ROUTES = False     # set by the property modules about gradient histories: `t zero` goes through Tensor.zero_ / Module.zero_grad / Optimizer.zero_grad in turn
 LAYOUTS = False          # set by the property modules whose input space includes the memory layout of leaf arrays
 LAYOUT_NAMES = ['C', 'C', 'F', 'strided', 'reversed', 'offset', 'transposed']
 
@@ -254,7 +255,11 @@ class Impl:
             a = np.array(common.parse_floats(t[5]), dtype=np.float64).reshape(shape).astype(DT[t[2]])
             if LAYOUTS:      # same values, another memory layout (Tensor keeps the caller's ndarray as it is)
                 a = relayout(a, LAYOUT_NAMES[sum(map(ord, t[5][:64])) % len(LAYOUT_NAMES)])
-            x = sg.Tensor(a, requires_grad=bool(int(t[4])))
+            if RESET_ROUTES and sum(map(ord, t[5][:64])) % 2 == 0:      # half of the leaves are nn.Parameter objects (a Tensor subclass)
+                from synapgrad.nn.modules import Parameter
+                x = Parameter(a, requires_grad=bool(int(t[4])))
+            else:
+                x = sg.Tensor(a, requires_grad=bool(int(t[4])))
             self.ts.append(x)
             return f't{len(self.ts) - 1}'
         if c == 'op':
@@ -330,7 +335,18 @@ class Impl:
             tr = self.traced(lambda: self.ts[int(t[2])].backward(g))
             return 'ok trace=' + (','.join(tr) if tr else '_')
         if c == 'zero':
-            self.ts[int(t[2])].zero_(); return 'ok'
+            x = self.ts[int(t[2])]
+            self.nzero = getattr(self, 'nzero', 0) + 1
+            route = self.nzero % 3 if RESET_ROUTES and x.requires_grad and x.is_leaf else 0
+            if route == 1 and type(x).__name__ == 'Parameter':      # the reset every training loop uses: Module.zero_grad
+                from synapgrad import nn
+                m = nn.Module(); m.register_parameter('w', x); m.zero_grad()
+            elif route == 2:                                          # ... or Optimizer.zero_grad
+                from synapgrad import optim
+                optim.SGD([x], lr=0.1).zero_grad()
+            else:
+                x.zero_()
+            return 'ok'
         if c == 'retain':
             self.ts[int(t[2])].retain_grad(); return 'ok'
         if c == 'setrg':
